@@ -125,6 +125,10 @@ def r11_3_packed_layout(ctx: Ctx) -> RuleResult:
                 rr.inst()
                 v = n.value
                 ok = False
+                if isinstance(v, ast.Call):
+                    from ..kit import inline_simple_call
+
+                    v = inline_simple_call(ctx.R, v, f) or v  # packing moved into a one-line helper
                 if isinstance(v, ast.BinOp) and isinstance(v.op, ast.BitOr):
                     for lo, hi in ((v.left, v.right), (v.right, v.left)):
                         if isinstance(hi, ast.BinOp) and isinstance(hi.op, ast.LShift) and M.fold(hi.right, c, c.mod) == BITS and not isinstance(lo, ast.BinOp):
